@@ -8,7 +8,7 @@ use gvharness::*;
 use std::collections::{BTreeMap, BTreeSet};
 
 const MATURITY: u64 = 3;
-const N_INVALID_KINDS: u64 = 23;
+const N_INVALID_KINDS: u64 = 26;
 
 #[derive(Clone, Default)]
 struct AState {
@@ -366,6 +366,30 @@ impl Gen {
 				txs.push(self.kit.build_tx(&TxSpec { inputs: vec![o], outputs: vec![(v - 1, None)], kernel: KSpec::Nrd(1, 1, 0) }).ok()?);
 				label = "nrd-before-hf3";
 			}
+			23 | 24 | 25 => {
+				// a spend that is fine in itself, whose input will CLAIM the wrong features for the
+				// output it names: a matured coinbase claimed plain (23), a plain output claimed
+				// coinbase (24), an immature coinbase claimed plain (25: maturity must not be dodged)
+				let c: Vec<usize> = match kind {
+					23 => spendable.iter().cloned().filter(|o| self.kit.outs[*o].coinbase).collect(),
+					24 => spendable.iter().cloned().filter(|o| !self.kit.outs[*o].coinbase).collect(),
+					_ => st.utxo.iter().filter(|(_, (c, cb))| *cb && h < *c + MATURITY).map(|(o, _)| *o).collect(),
+				};
+				if c.is_empty() {
+					return None;
+				}
+				let o = *rng.pick(&c);
+				let v = self.kit.outs[o].value;
+				if v < 5 {
+					return None;
+				}
+				txs.push(self.kit.build_tx(&TxSpec { inputs: vec![o], outputs: vec![(v - 1, None)], kernel: KSpec::Plain(1) }).ok()?);
+				label = match kind {
+					23 => "input-features-wrong:matured-coinbase-claimed-plain",
+					24 => "input-features-wrong:plain-output-claimed-coinbase",
+					_ => "input-features-wrong:immature-coinbase-claimed-plain",
+				};
+			}
 			5 => {
 				delta = if rng.chance(1, 2) { 1 } else { -1 };
 				if spendable.is_empty() && delta < 0 {
@@ -512,6 +536,10 @@ impl Gen {
 			21 => {
 				b.header.total_kernel_offset = grin_keychain::BlindingFactor::from_slice(&[0xffu8; 32]);
 				tags.push("sums:Committed".into());
+			}
+			23 | 24 | 25 => {
+				// the model derives the fault from the `inf=` claims of the block line, no tag needed
+				b = self.kit.features_form(&b, Some(None))?;
 			}
 			18 => {
 				// a plain output carrying a forged coinbase flag (the body stays sorted)
@@ -758,7 +786,16 @@ fn run_history(out: &mut Out, rng: &mut Rng, work: &str, hist: usize, big: bool)
 				Ev::Blk(i) => {
 					// every other subject receives its blocks the way the wire carries them
 					// (inputs as bare commitments); its twin gets the in-memory form
-					let r = if si % 2 == 1 { subj.deliver_block_wire(&kit.blks[*i].block) } else { subj.deliver_block(&kit.blks[*i].block) };
+					// (a block whose fault IS what its inputs claim is delivered in the form that carries the claim)
+					let claims = kit.blks[*i].tags.iter().any(|t| t.starts_with("kind:input-features-wrong"));
+					// even subjects: the features-and-commit form with the right claims (v2 / JSON)
+					let r = if claims {
+						subj.deliver_block(&kit.blks[*i].block)
+					} else if si % 2 == 1 {
+						subj.deliver_block_wire(&kit.blks[*i].block)
+					} else {
+						subj.deliver_block_features(kit, &kit.blks[*i].block)
+					};
 					out.line(&format!("chain deliver {} b{}", name, i), &r);
 					if !kit.blks[*i].valid && r.starts_with("ok") {
 						out.raw(&format!(
@@ -852,6 +889,10 @@ fn run_history(out: &mut Out, rng: &mut Rng, work: &str, hist: usize, big: bool)
 					if let Err(e) = subj.c().validate(true) {
 						out.raw(&format!("#ORACLE-FAIL C01 validate(fast) failed: hist={} subject={} after {:?}: {}", hist, name, ev, error_class(&e)));
 					}
+					// the sums stored for the head = the sums recomputed from the full state
+					if let Err(e) = subj.sums_check() {
+						out.raw(&format!("#ORACLE-FAIL C01 hist={} subject={} after {:?}: {}", hist, name, ev, e));
+					}
 				}
 			}
 		}
@@ -870,6 +911,9 @@ fn run_history(out: &mut Out, rng: &mut Rng, work: &str, hist: usize, big: bool)
 			Err(e) => format!("err:{}", error_class(&e)),
 		};
 		out.line(&format!("chain validate {}", name), &v);
+		if let Err(e) = subj.sums_check() {
+			out.raw(&format!("#ORACLE-FAIL C01 hist={} subject={} at the end of its history: {}", hist, name, e));
+		}
 		finals.push((name.clone(), subj.obs(kit), subj.roots(), true));
 		drop(subj);
 		drop(twin);
@@ -920,12 +964,18 @@ fn run_long(out: &mut Out, rng: &mut Rng, work: &str, user: bool, hdr_ahead: boo
 	let aim = if hdr_ahead { 20u64 } else { 12u64 };
 	let mut tip = 0usize;
 	let mut trunk = vec![0usize];
-	let mut spendable: Vec<(usize, u64)> = vec![(0, 0)];
+	// the outputs of heights 0..3 (the coinbases: output leaves 0..3, two pairs of sibling leaves far
+	// below any horizon) are kept unspent until the LAST trunk block - the head at compaction time -
+	// spends leaves 0 and 1 (both siblings) and leaf 2 (one sibling); a heavier sibling of that block
+	// then replaces it (a reorganisation of one block) and spends leaf 3 instead
+	let mut spendable: Vec<(usize, u64)> = vec![];
+	let mut reserved: Vec<usize> = vec![0];
 	let mut spent_plain: Vec<usize> = vec![];
 	// output leaf index of every output and the height at which a leaf was spent, so that the
 	// late blocks can aim at the spend patterns of the property (a leaf whose sibling was spent
 	// long before, both siblings, whole small subtrees)
 	let mut leaf_of: BTreeMap<usize, u64> = BTreeMap::new();
+	leaf_of.insert(0, 0);
 	let mut spent_at: BTreeMap<u64, u64> = BTreeMap::new();
 	let mut sibling_pattern = 0u64;
 	for h in 1..=n_trunk {
@@ -978,12 +1028,24 @@ fn run_long(out: &mut Out, rng: &mut Rng, work: &str, user: bool, hdr_ahead: boo
 				specs.push(TxSpec { inputs: vec![o], outputs: vec![(a, None), (v - a - 2, None)], kernel: KSpec::Plain(2) });
 			}
 		}
+		if h == n_trunk && reserved.len() == 4 {
+			let (a, b, c) = (reserved[0], reserved[1], reserved[2]);
+			specs.push(TxSpec { inputs: vec![a, b], outputs: vec![(kit.outs[a].value + kit.outs[b].value - 3, None)], kernel: KSpec::Plain(3) });
+			specs.push(TxSpec { inputs: vec![c], outputs: vec![(kit.outs[c].value - 2, None)], kernel: KSpec::Plain(2) });
+		}
 		let before = kit.outs.len();
 		match kit.new_block(tip, 2, &specs) {
 			Ok(id) => {
 				tip = id;
 				trunk.push(id);
 				for o in before..kit.outs.len() {
+					if h <= 3 {
+						reserved.push(o);
+						if let Ok(Some((_, cp))) = kit.builder().get_unspent(kit.outs[o].commit) {
+							leaf_of.insert(o, grin_core::core::pmmr::n_leaves(cp.pos) - 1);
+						}
+						continue;
+					}
 					spendable.push((o, h));
 					if let Ok(Some((_, cp))) = kit.builder().get_unspent(kit.outs[o].commit) {
 						leaf_of.insert(o, grin_core::core::pmmr::n_leaves(cp.pos) - 1);
@@ -997,9 +1059,24 @@ fn run_long(out: &mut Out, rng: &mut Rng, work: &str, user: bool, hdr_ahead: boo
 		}
 	}
 	*stats.entry("long:late-spends-whose-sibling-was-spent-25+-blocks-earlier".into()).or_insert(0) += sibling_pattern;
+	// the heavier sibling of the last trunk block
+	let n = trunk.len() - 1;
+	let mut alt: Option<usize> = None;
+	let head_spent: Vec<usize> = if reserved.len() == 4 && n as u64 == n_trunk { reserved[..3].to_vec() } else { vec![] };
+	if !head_spent.is_empty() {
+		let d = reserved[3];
+		let spec = TxSpec { inputs: vec![d], outputs: vec![(kit.outs[d].value - 2, None)], kernel: KSpec::Plain(2) };
+		match kit.new_block(trunk[n - 1], 3, &[spec]) {
+			Ok(id) => alt = Some(id),
+			Err(e) => complain(format!("sibling of the compaction head: {}", e)),
+		}
+		let leaves: Vec<String> = reserved.iter().map(|o| format!("o{}@leaf{:?}", o, leaf_of.get(o))).collect();
+		out.raw(&format!("#STAT long:head-at-compaction spends [{}] (first three), its sibling the fourth", leaves.join(",")));
+	} else {
+		complain("scripted chain: the block that is head at compaction time does not spend the reserved old outputs".to_string());
+	}
 	// a competing branch of depth 3 forking 11 blocks below the tip (inside the horizon), heavier:
 	// it un-spends everything the last 11 trunk blocks spent
-	let n = trunk.len() - 1;
 	let mut fork = vec![];
 	let mut t = trunk[n - fork_depth];
 	for d in 0..3 {
@@ -1137,7 +1214,48 @@ fn run_long(out: &mut Out, rng: &mut Rng, work: &str, user: bool, hdr_ahead: boo
 		}
 	}
 	*stats.entry("long:merkle-proofs-after-compaction".into()).or_insert(0) += proofs;
+	// C01: the sums the node stores for its head equal the sums recomputed from the compacted state
+	if let Err(e) = subj.sums_check() {
+		out.raw(&format!("#ORACLE-FAIL C01 after compaction: {}", e));
+	}
+	// the block that was head when the node compacted is replaced by its heavier sibling: everything
+	// it spent - outputs created far below the horizon, two of them sibling leaves - is unspent again,
+	// its data and range proof are still in the files, the state validates in full and the stored
+	// sums are those of the full state
+	if let Some(a) = alt {
+		let r = subj.deliver_block(&kit.blks[a].block);
+		out.line(&format!("chain deliver s0 b{}", a), &r);
+		let r2 = twin.deliver_block(&kit.blks[a].block);
+		out.line(&format!("chain deliver t0 b{}", a), &r2);
+		if r != "ok:head" || r2 != "ok:head" {
+			out.raw(&format!("#ORACLE-FAIL C03 the heavier sibling of the head did not become the head (compacted node: {}, twin: {})", r, r2));
+		}
+		check_pair(out, &subj, &twin, "sibling-replaces-the-head-the-node-compacted-at");
+		for o in &head_spent {
+			let created = kit.blks.iter().find_map(|b| b.block.outputs().iter().find(|x| x.commitment() == kit.outs[*o].commit).cloned());
+			match subj.c().get_unspent(kit.outs[*o].commit) {
+				Ok(Some(_)) => {}
+				_ => out.raw(&format!("#ORACLE-FAIL C02 o{} (spent only by the block the node compacted at, which a sibling replaced) is not unspent again", o)),
+			}
+			if let Some(cr) = created {
+				if let Err(e) = subj.readback(&kit, *o, &cr) {
+					out.raw(&format!("#ORACLE-FAIL C08 after compaction at a head that spent it and a one-block reorganisation away from that head: {}", e));
+				}
+			}
+		}
+		let v = subj.c().validate(false);
+		out.line("chain validate s0", &match &v { Ok(_) => "ok".to_string(), Err(e) => format!("err:{}", error_class(e)) });
+		if let Err(e) = &v {
+			out.raw(&format!("#ORACLE-FAIL C01 full validation fails after compaction and a one-block reorganisation: {}", error_class(e)));
+		}
+		if let Err(e) = subj.sums_check() {
+			out.raw(&format!("#ORACLE-FAIL C01 after compaction and a one-block reorganisation: {}", e));
+		}
+		*stats.entry("long:one-block-reorg-away-from-the-compaction-head".into()).or_insert(0) += 1;
+		*stats.entry("long:old-outputs-unspent-again-and-read-back".into()).or_insert(0) += head_spent.len() as u64;
+	}
 	// restart (bitmap accumulator and output_pos index are rebuilt on open)
+	let roots_before = subj.roots();
 	let r = match subj.reopen() {
 		Ok(_) => "ok".to_string(),
 		Err(e) => format!("err:{}", e),
@@ -1160,6 +1278,9 @@ fn run_long(out: &mut Out, rng: &mut Rng, work: &str, user: bool, hdr_ahead: boo
 	}
 	let v2 = subj.c().validate(false);
 	out.line("chain validate s0", &match &v2 { Ok(_) => "ok".to_string(), Err(e) => format!("err:{}", error_class(e)) });
+	if let Err(e) = subj.sums_check() {
+		out.raw(&format!("#ORACLE-FAIL C01 after compaction, restart and a reorganisation inside the horizon: {}", e));
+	}
 	// a reorganisation from the deepest block a compacted node can still reorganise from: the
 	// branch rooted exactly at its body tail
 	// (only where the tail IS the compaction horizon, as on mainnet and under UserTesting; under
@@ -1184,6 +1305,9 @@ fn run_long(out: &mut Out, rng: &mut Rng, work: &str, user: bool, hdr_ahead: boo
 			}
 			let v3 = subj.c().validate(false);
 			out.line("chain validate s0", &match &v3 { Ok(_) => "ok".to_string(), Err(e) => format!("err:{}", error_class(e)) });
+			if let Err(e) = subj.sums_check() {
+				out.raw(&format!("#ORACLE-FAIL C01 after a reorganisation from the body tail of a compacted node: {}", e));
+			}
 			*stats.entry("long:reorg-from-the-body-tail".into()).or_insert(0) += 1;
 		}
 		None => {
@@ -1392,6 +1516,52 @@ fn run_deep(out: &mut Out, rng: &mut Rng, work: &str) -> BTreeMap<String, u64> {
 			}
 		}
 	}
+	// a fifth tree for the inputs in "features and commit" form (protocol v2 / JSON): five light blocks,
+	// X spending the (matured) coinbase of the first into two outputs, Y spending a plain output of X;
+	// probe transactions spending the second coinbase (matured at the next height), the fifth
+	// (immature) and - after X - a plain output of X
+	let mut ft: Vec<usize> = vec![];
+	let mut ft_xy: Option<(usize, usize)> = None;
+	let mut ft_probes: Vec<(String, grin_core::core::Transaction)> = vec![];
+	{
+		let mut cur = 0usize;
+		for _ in 0..5 {
+			match kit.new_block(cur, 4, &[]) {
+				Ok(id) => {
+					cur = id;
+					ft.push(id);
+				}
+				Err(e) => {
+					complain(format!("features tree: {}", e));
+					break;
+				}
+			}
+		}
+		if ft.len() == 5 {
+			let cb = |kit: &Kit, b: usize| -> usize {
+				let o = kit.blks[b].block.outputs().iter().find(|o| o.is_coinbase()).unwrap().commitment();
+				*kit.by_commit.get(&o).unwrap()
+			};
+			let o1 = cb(&kit, ft[0]);
+			let v1 = kit.outs[o1].value;
+			let sx = TxSpec { inputs: vec![o1], outputs: vec![(v1 / 2, None), (v1 - v1 / 2 - 2, None)], kernel: KSpec::Plain(2) };
+			if let Ok(x) = kit.new_block(cur, 4, &[sx]) {
+				let px: Vec<usize> = kit.blks[x].block.outputs().iter().filter(|o| !o.is_coinbase()).map(|o| *kit.by_commit.get(&o.commitment()).unwrap()).collect();
+				let vp = kit.outs[px[0]].value;
+				let sy = TxSpec { inputs: vec![px[0]], outputs: vec![(vp - 2, None)], kernel: KSpec::Plain(2) };
+				if let Ok(y) = kit.new_block(x, 4, &[sy]) {
+					ft_xy = Some((x, y));
+				}
+				let (o2, o5) = (cb(&kit, ft[1]), cb(&kit, ft[4]));
+				for (label, o) in [("matured-coinbase", o2), ("immature-coinbase", o5), ("plain-output", px[1])] {
+					let v = kit.outs[o].value;
+					if let Ok(tx) = kit.build_tx(&TxSpec { inputs: vec![o], outputs: vec![(v - 3, None)], kernel: KSpec::Plain(3) }) {
+						ft_probes.push((label.to_string(), tx));
+					}
+				}
+			}
+		}
+	}
 	for l in kit.out_lines(0) {
 		out.raw(&l);
 	}
@@ -1590,6 +1760,97 @@ fn run_deep(out: &mut Out, rng: &mut Rng, work: &str) -> BTreeMap<String, u64> {
 		};
 		out.line("chain reopen s7", &rr);
 		out.line("chain obs s7", &s7.obs(&kit));
+	}
+	// (6) C02: inputs in the "features and commit" form. An input that names an EXISTING unspent
+	// commitment with the WRONG features (plain for a coinbase, coinbase for a plain output) spends
+	// nothing that exists: refused by `process_block` (a same-hash twin of a valid block: the block
+	// hash does not cover the inputs), `Chain::validate_tx` and `Chain::validate_inputs`, nothing
+	// changes; the same spend with the right features and in commit-only form is accepted; the
+	// maturity check is not dodged by claiming a coinbase plain
+	if let Some((x, y)) = ft_xy {
+		let s8 = Subject::new(&format!("{}/deep_s8", work), &kit.genesis);
+		out.raw("chain new s8");
+		deliver(out, &s8, "s8", &ft, 5);
+		let strip = |s: String| -> String { s.split(' ').filter(|t| !t.starts_with("hhead=")).collect::<Vec<_>>().join(" ") };
+		let probe = |out: &mut Out, stats: &mut BTreeMap<String, u64>, stage: &str| {
+			for (label, tx) in &ft_probes {
+				for form in ["commit-only", "right-features", "wrong-features"] {
+					let t = match form {
+						"commit-only" => Some(tx.clone()),
+						"right-features" => kit.tx_features_form(tx, None),
+						_ => kit.tx_features_form(tx, Some(None)),
+					};
+					let t = match t {
+						Some(t) => t,
+						None => continue,
+					};
+					let d = format!("{}{}", tx_desc(&kit, &t), kit.claims_desc(&t.inputs()));
+					let before = (s8.obs(&kit), s8.roots());
+					let show = |r: Result<(), grin_chain::Error>| match r {
+						Ok(_) => "ok".to_string(),
+						Err(e) => format!("err:{}", error_class(&e)),
+					};
+					let rv = show(s8.c().validate_tx(&t));
+					let ri = show(s8.c().validate_inputs(&t.inputs()).map(|_| ()));
+					let rm = show(s8.c().verify_coinbase_maturity(&t.inputs()));
+					out.line(&format!("chain txval s8 {}", d), &rv);
+					out.line(&format!("chain txins s8 {}", d), &ri);
+					out.line(&format!("chain txmat s8 {}", d), &rm);
+					*stats.entry(format!("deep:features-form:{}:{}:{}:validate_tx={}:validate_inputs={}:maturity={}", stage, label, form, rv, ri, rm)).or_insert(0) += 1;
+					// the oracle of the property (both spent-ness and the identifier are what C02 is about)
+					let spendable_now = rv == "ok" && form == "commit-only";
+					let _ = spendable_now;
+					if form == "wrong-features" && (rv == "ok" || ri == "ok") {
+						// (an input whose commitment is not unspent at all is refused in every form: fine)
+						out.raw(&format!(
+							"#ORACLE-FAIL C02 an input naming an unspent commitment with the wrong features is accepted ({} {}): validate_tx={} validate_inputs={} tx {}",
+							stage, label, rv, ri, d
+						));
+					}
+					if (before.0.clone(), before.1.clone()) != (s8.obs(&kit), s8.roots()) {
+						out.raw(&format!("#ORACLE-FAIL C06 an admission check changed the chain state ({} {} {})", stage, label, form));
+					}
+				}
+			}
+		};
+		probe(out, &mut stats, "before-X");
+		for (valid_id, what) in [(x, "a matured coinbase claimed plain"), (y, "a plain output claimed coinbase")] {
+			let genuine = &kit.blks[valid_id].block;
+			if let Some(lying) = kit.features_form(genuine, Some(None)) {
+				// (its header - the genuine one - is valid and known first, as after header sync)
+				let hr = s8.deliver_header(&genuine.header);
+				out.line(&format!("chain hdr s8 b{}", valid_id), &hr);
+				let before = (s8.obs(&kit), s8.roots(), s8.txhashset_files());
+				let r = s8.deliver_block(&lying);
+				*stats.entry(format!("deep:features-form:same-hash-twin-of-valid-block:{}:{}", what.replace(' ', "-"), r)).or_insert(0) += 1;
+				if r.starts_with("ok") {
+					out.raw(&format!("#ORACLE-FAIL C02 a block whose input names an unspent commitment with the wrong features ({}; same hash as the valid b{}) was accepted: {}", what, valid_id, r));
+				}
+				let after = (s8.obs(&kit), s8.roots(), s8.txhashset_files());
+				if (strip(before.0.clone()), before.1.clone()) != (strip(after.0.clone()), after.1.clone()) {
+					out.raw(&format!("#ORACLE-FAIL C06 a refused block with wrong input features changed the chain state: before=[{}] after=[{}]", before.0, after.0));
+				}
+				if let Some(d) = files_diff(&before.2, &after.2) {
+					out.raw(&format!("#ORACLE-FAIL C06 a refused block with wrong input features changed the txhashset files: {}", d));
+				}
+				out.line("chain obs s8", &s8.obs(&kit));
+			}
+			// the genuine block: X with the right features spelled out, Y as bare commitments
+			let r = if valid_id == x { s8.deliver_block_features(&kit, genuine) } else { s8.deliver_block_wire(genuine) };
+			out.line(&format!("chain deliver s8 b{}", valid_id), &r);
+			if r != "ok:head" {
+				out.raw(&format!("#ORACLE-FAIL C02 the valid b{} was not accepted after its wrong-features twin had been refused: {}", valid_id, r));
+			}
+			out.line("chain obs s8", &s8.obs(&kit));
+			if valid_id == x {
+				probe(out, &mut stats, "after-X");
+			}
+		}
+		let v = match s8.c().validate(false) {
+			Ok(_) => "ok".to_string(),
+			Err(e) => format!("err:{}", error_class(&e)),
+		};
+		out.line("chain validate s8", &v);
 	}
 	stats
 }
@@ -2210,6 +2471,1017 @@ fn run_c13(out: &mut Out, rng: &mut Rng, work: &str) -> BTreeMap<String, u64> {
 	g.stats.clone()
 }
 
+// ---------------------------------------------------------------------------------------------
+// C06 `fat`: a LOSING fork that writes a lot. Every fork block carries the maximal number of
+// outputs the block weight of the test chain allows (10 + the coinbase); processing the k-th fork
+// block rewinds the working state to the fork point - undoing best-chain blocks that created
+// outputs after it - and re-applies the whole fork inside one extension (11·k outputs: > 64 KiB of
+// range proofs from k = 10 on, > 1 MiB in the thorough tier) before the extension is rolled back
+// because the fork has less work. After every such block, and after invalid blocks on top of the
+// fork that fail at the LAST stage (roots / sizes, after everything was applied), every byte of
+// every file under the txhashset directory, everything the database shows of the best chain, the
+// data and range proof of every best-chain output created after the fork point must be what they
+// were, the state must validate in full, and the best chain must go on as on a node that never
+// saw the fork.
+fn run_fat(out: &mut Out, _rng: &mut Rng, work: &str, thorough: bool) -> BTreeMap<String, u64> {
+	out.raw("chain reset");
+	let mut stats: BTreeMap<String, u64> = BTreeMap::new();
+	let mut kit = Kit::new(&format!("{}/builder_fat", work));
+	let n_fork: usize = if thorough { 150 } else { 12 };
+	let cb = |kit: &Kit, b: usize| -> usize {
+		let o = kit.blks[b].block.outputs().iter().find(|o| o.is_coinbase()).unwrap().commitment();
+		*kit.by_commit.get(&o).unwrap()
+	};
+	let plains = |kit: &Kit, b: usize| -> Vec<usize> {
+		kit.blks[b].block.outputs().iter().filter(|o| !o.is_coinbase()).map(|o| *kit.by_commit.get(&o.commitment()).unwrap()).collect()
+	};
+	let heavy = 1000u64;
+	let mut trunk = vec![0usize];
+	let mut fail = |stats: &mut BTreeMap<String, u64>, e: String| {
+		*stats.entry(format!("generator:{}", e)).or_insert(0) += 1;
+		complain(format!("fat fork script: {}", e));
+	};
+	// trunk below the fork point (height 8): the genesis reward split at height 4
+	for h in 1..=8u64 {
+		let mut specs = vec![];
+		if h == 4 {
+			let v = kit.outs[0].value;
+			specs.push(TxSpec { inputs: vec![0], outputs: vec![(v / 2, None), (v - v / 2 - 2, None)], kernel: KSpec::Plain(2) });
+		}
+		match kit.new_block(*trunk.last().unwrap(), heavy, &specs) {
+			Ok(id) => trunk.push(id),
+			Err(e) => {
+				fail(&mut stats, e);
+				return stats;
+			}
+		}
+	}
+	let fork_point = trunk[8];
+	let old = plains(&kit, trunk[4]); // two plain outputs created at height 4
+	// best chain above the fork point: every block creates outputs
+	for h in 9..=14u64 {
+		let v = |kit: &Kit, o: usize| kit.outs[o].value;
+		let mut specs = vec![];
+		match h {
+			9 => {
+				let o = cb(&kit, trunk[1]);
+				specs.push(TxSpec { inputs: vec![o], outputs: vec![(v(&kit, o) / 2, None), (v(&kit, o) - v(&kit, o) / 2 - 2, None)], kernel: KSpec::Plain(2) });
+			}
+			10 => {
+				let o = cb(&kit, trunk[2]);
+				specs.push(TxSpec { inputs: vec![o], outputs: vec![(1000, None), (2000, None), (v(&kit, o) - 3003, None)], kernel: KSpec::Plain(3) });
+			}
+			11 => {
+				let o = old[0];
+				specs.push(TxSpec { inputs: vec![o], outputs: vec![(v(&kit, o) - 1, None)], kernel: KSpec::Plain(1) });
+			}
+			12 => {
+				let o = cb(&kit, trunk[3]);
+				specs.push(TxSpec { inputs: vec![o], outputs: vec![(v(&kit, o) / 3, None), (v(&kit, o) - v(&kit, o) / 3 - 2, None)], kernel: KSpec::Plain(2) });
+			}
+			13 => {
+				// spends an output created above the fork point and the old output the fork spends too
+				let a = plains(&kit, trunk[10])[0];
+				let b = old[1];
+				specs.push(TxSpec { inputs: vec![a, b], outputs: vec![(v(&kit, a) + v(&kit, b) - 2, None)], kernel: KSpec::Plain(2) });
+			}
+			_ => {
+				let o = cb(&kit, trunk[5]);
+				specs.push(TxSpec { inputs: vec![o], outputs: vec![(v(&kit, o) - 2, None)], kernel: KSpec::Plain(2) });
+			}
+		}
+		match kit.new_block(*trunk.last().unwrap(), heavy, &specs) {
+			Ok(id) => trunk.push(id),
+			Err(e) => {
+				fail(&mut stats, e);
+				return stats;
+			}
+		}
+	}
+	// the fat fork: block k spends the carry output of block k-1 (block 1: the old output the best
+	// chain spends at height 13) into 10 outputs
+	let mut fork: Vec<usize> = vec![];
+	let mut invalid: Vec<(usize, usize)> = vec![]; // (deliver after fork block index, block id)
+	{
+		let mut parent = fork_point;
+		let mut carry = old[1];
+		for k in 1..=n_fork {
+			let v = kit.outs[carry].value;
+			let small = 1000u64;
+			let mut outs: Vec<(u64, Option<usize>)> = vec![(v - 9 * small - 2, None)];
+			for _ in 0..9 {
+				outs.push((small, None));
+			}
+			let first_new = kit.outs.len();
+			let spec = TxSpec { inputs: vec![carry], outputs: outs, kernel: KSpec::Plain(2) };
+			match kit.new_block(parent, 1, &[spec.clone()]) {
+				Ok(id) => {
+					fork.push(id);
+					parent = id;
+					carry = first_new; // the first output registered is the carry
+				}
+				Err(e) => {
+					fail(&mut stats, format!("fork block {}: {}", k, e));
+					break;
+				}
+			}
+			// invalid fat blocks on top of the fork (in the middle and at its end), failing at the last
+			// stage: wrong kernel root, wrong kernel MMR size; with less work than the head (the
+			// extension would have been rolled back anyway) and with more (it would have been kept)
+			if k == n_fork / 2 || k == n_fork {
+				for (which, diff) in [(0u8, 1u64), (1, 1), (0, 100 * heavy), (1, 100 * heavy)] {
+					let v = kit.outs[carry].value;
+					let mut outs: Vec<(u64, Option<usize>)> = vec![(v - 9 * small - 2, None)];
+					for _ in 0..9 {
+						outs.push((small, None));
+					}
+					let tx = match kit.build_tx(&TxSpec { inputs: vec![carry], outputs: outs, kernel: KSpec::Plain(2) }) {
+						Ok(t) => t,
+						Err(_) => continue,
+					};
+					if let Ok(mut b) = kit.assemble(parent, diff, &[tx], 0) {
+						let tag = if which == 0 {
+							let mut v = b.header.kernel_root.to_vec();
+							v[7] ^= 1;
+							b.header.kernel_root = Hash::from_vec(&v);
+							"late:InvalidRoot"
+						} else {
+							b.header.kernel_mmr_size =
+								grin_core::core::pmmr::insertion_to_pmmr_index(grin_core::core::pmmr::n_leaves(b.header.kernel_mmr_size) + 1);
+							"late:InvalidMMRSize"
+						};
+						let kind = format!("kind:fat-fork-block-{}-{}", if which == 0 { "kernel-root-wrong(late)" } else { "kernel-mmr-size-wrong(late)" }, if diff == 1 { "less-work-than-head" } else { "more-work-than-head" });
+						let id = kit.record(b, parent, vec![tag.to_string(), kind], false);
+						invalid.push((k, id));
+					}
+				}
+			}
+		}
+	}
+	for l in kit.out_lines(0) {
+		out.raw(&l);
+	}
+	for id in 0..kit.blks.len() {
+		out.raw(&kit.blk_line(id));
+	}
+	let mut subj = Subject::new(&format!("{}/fat_s", work), &kit.genesis);
+	let twin = Subject::new(&format!("{}/fat_t", work), &kit.genesis);
+	out.raw("chain new s0");
+	out.raw("chain new t0");
+	for i in &trunk[1..=12] {
+		let r = subj.deliver_block(&kit.blks[*i].block);
+		out.line(&format!("chain deliver s0 b{}", i), &r);
+		let r = twin.deliver_block(&kit.blks[*i].block);
+		out.line(&format!("chain deliver t0 b{}", i), &r);
+	}
+	out.line("chain obs s0", &subj.obs(&kit));
+	let best: Vec<usize> = trunk[..=12].to_vec();
+	// best-chain outputs created above the fork point and unspent at the head
+	let mut fresh: Vec<(usize, grin_core::core::Output)> = vec![];
+	for i in &trunk[9..=12] {
+		for o in kit.blks[*i].block.outputs() {
+			let oid = *kit.by_commit.get(&o.commitment()).unwrap();
+			if let Ok(Some(_)) = subj.c().get_unspent(o.commitment()) {
+				fresh.push((oid, o.clone()));
+			}
+		}
+	}
+	*stats.entry("fat:best-chain-outputs-above-the-fork-point-checked-by-read-back".into()).or_insert(0) += fresh.len() as u64;
+	let strip = |s: String| -> String { s.split(' ').filter(|t| !t.starts_with("hhead=")).collect::<Vec<_>>().join(" ") };
+	let mut max_ext_outputs = 0usize;
+	// one delivery of a block that must leave the best chain untouched
+	let mut untouched = |out: &mut Out, stats: &mut BTreeMap<String, u64>, subj: &Subject, id: usize, ext_outputs: usize, expect_ok_fork: bool| {
+		let before = (strip(subj.obs(&kit)), subj.roots(), subj.txhashset_files(), subj.db_view(&kit, &best));
+		let r = subj.deliver_block(&kit.blks[id].block);
+		out.line(&format!("chain deliver s0 b{}", id), &r);
+		let what = format!(
+			"b{} (height {}, {} fork blocks / {} outputs / about {} KiB of range proofs re-applied in the rolled-back extension) => {}",
+			id,
+			kit.blks[id].height,
+			kit.blks[id].height - 8,
+			ext_outputs,
+			ext_outputs * 675 / 1024,
+			r
+		);
+		if expect_ok_fork && r != "ok:fork" {
+			out.raw(&format!("#ORACLE-FAIL C06 a valid block of a losing fork was not accepted as a fork block: {}", what));
+		}
+		if !expect_ok_fork && r.starts_with("ok") {
+			out.raw(&format!("#ORACLE-FAIL C06 invalid block accepted: {} tags={:?}", what, kit.blks[id].tags));
+		}
+		let obs = subj.obs(&kit);
+		out.line("chain obs s0", &obs);
+		let mut verdict: Vec<String> = vec![];
+		if (strip(obs.clone()), subj.roots()) != (before.0.clone(), before.1.clone()) {
+			out.raw(&format!("#ORACLE-FAIL C06 a {} changed head / unspent set / roots: {}: before=[{} {}] after=[{} {}]", if expect_ok_fork { "losing-fork block" } else { "refused block" }, what, before.0, before.1, obs, subj.roots()));
+			verdict.push("state=CHANGED".into());
+		} else {
+			verdict.push("state=same".into());
+		}
+		match files_diff(&before.2, &subj.txhashset_files()) {
+			Some(d) => {
+				out.raw(&format!("#ORACLE-FAIL C06 a rolled-back extension left bytes behind in the txhashset files: {}: {}", d, what));
+				verdict.push("files=CHANGED".into());
+			}
+			None => verdict.push("files=same".into()),
+		}
+		let db = subj.db_view(&kit, &best);
+		if db != before.3 {
+			let first = db.iter().zip(before.3.iter()).find(|(a, b)| a != b).map(|(a, b)| format!("{} (was {})", a, b)).unwrap_or_default();
+			out.raw(&format!("#ORACLE-FAIL C06 a rolled-back extension changed what the database shows of the best chain: {}: {}", first, what));
+			verdict.push("db=CHANGED".into());
+		} else {
+			verdict.push("db=same".into());
+		}
+		let mut rb = "readback=same".to_string();
+		for (oid, o) in &fresh {
+			if let Err(e) = subj.readback(&kit, *oid, o) {
+				out.raw(&format!("#ORACLE-FAIL C06 best-chain output created above the fork point damaged by a rolled-back extension: {}: {}", e, what));
+				rb = "readback=CHANGED".to_string();
+			}
+		}
+		verdict.push(rb);
+		match subj.c().validate(false) {
+			Ok(_) => verdict.push("validate=ok".into()),
+			Err(e) => {
+				out.raw(&format!("#ORACLE-FAIL C01 full validation fails after a rolled-back extension: {}: {}", error_class(&e), what));
+				verdict.push(format!("validate=err:{}", error_class(&e)));
+			}
+		}
+		match subj.sums_check() {
+			Ok(_) => verdict.push("sums=ok".into()),
+			Err(e) => {
+				out.raw(&format!("#ORACLE-FAIL C01 after a rolled-back extension: {}: {}", e, what));
+				verdict.push("sums=CHANGED".into());
+			}
+		}
+		out.line(&format!("chain untouched s0 b{}", id), &verdict.join(","));
+		*stats.entry(format!("fat:{}:{}", if expect_ok_fork { "losing-fork-block" } else { "invalid-block-on-the-fork" }, r)).or_insert(0) += 1;
+	};
+	for (k, id) in fork.iter().enumerate() {
+		let ext_outputs = 11 * (k + 1);
+		max_ext_outputs = max_ext_outputs.max(ext_outputs);
+		untouched(out, &mut stats, &subj, *id, ext_outputs, true);
+		for (after, bad) in &invalid {
+			if *after == k + 1 {
+				untouched(out, &mut stats, &subj, *bad, ext_outputs + 11, false);
+				max_ext_outputs = max_ext_outputs.max(ext_outputs + 11);
+			}
+		}
+	}
+	out.raw(&format!(
+		"#STAT fat: largest rolled-back extension re-applied {} outputs = about {} KiB appended to the range proof data file, {} KiB to the output data / hash files",
+		max_ext_outputs,
+		max_ext_outputs * 675 / 1024,
+		max_ext_outputs * (34 + 2 * 32 * 2) / 1024
+	));
+	// the node that saw all of it against the twin that never did: same files byte for byte
+	if let Some(d) = files_diff(&twin.txhashset_files(), &subj.txhashset_files()) {
+		out.raw(&format!("#ORACLE-FAIL C06 after {} losing-fork blocks and {} refused blocks the txhashset files differ from those of a node that never saw them: {}", fork.len(), invalid.len(), d));
+	}
+	// a restart in between, then the best chain goes on (the block at height 13 spends an output
+	// created above the fork point and the old output the fork spent)
+	let r = match subj.reopen() {
+		Ok(_) => "ok".to_string(),
+		Err(e) => format!("err:{}", e),
+	};
+	out.line("chain reopen s0", &r);
+	out.line("chain obs s0", &subj.obs(&kit));
+	for i in &trunk[13..] {
+		let r = subj.deliver_block(&kit.blks[*i].block);
+		out.line(&format!("chain deliver s0 b{}", i), &r);
+		let r2 = twin.deliver_block(&kit.blks[*i].block);
+		out.line(&format!("chain deliver t0 b{}", i), &r2);
+		if r != "ok:head" || r2 != "ok:head" {
+			out.raw(&format!("#ORACLE-FAIL C06 after the losing fat fork the best chain does not go on: b{} => {} (twin: {})", i, r, r2));
+		}
+		let (o, t) = (subj.obs(&kit), twin.obs(&kit));
+		out.line("chain obs s0", &o);
+		if strip(o.clone()) != strip(t.clone()) || subj.roots() != twin.roots() {
+			out.raw(&format!("#ORACLE-FAIL C06 node that saw the losing fat fork diverged from its twin: subj=[{} {}] twin=[{} {}]", o, subj.roots(), t, twin.roots()));
+		}
+	}
+	if let Some(d) = files_diff(&twin.txhashset_files(), &subj.txhashset_files()) {
+		out.raw(&format!("#ORACLE-FAIL C06 after the losing fat fork and two more best-chain blocks the txhashset files differ from the twin's: {}", d));
+	}
+	let v = match subj.c().validate(false) {
+		Ok(_) => "ok".to_string(),
+		Err(e) => format!("err:{}", error_class(&e)),
+	};
+	out.line("chain validate s0", &v);
+	if let Err(e) = subj.sums_check() {
+		out.raw(&format!("#ORACLE-FAIL C01 at the end of the fat-fork history: {}", e));
+	}
+	*stats.entry("fat:fork-blocks".into()).or_insert(0) += fork.len() as u64;
+	*stats.entry("fat:outputs-built".into()).or_insert(0) += kit.outs.len() as u64;
+	if max_ext_outputs < 100 {
+		out.raw(&format!("#ORACLE-FAIL C06 harness: the fat fork reached only {} outputs in one extension", max_ext_outputs));
+	}
+	stats
+}
+
+// ---------------------------------------------------------------------------------------------
+// C01 `fullval`: full-state validation — `txhashset::Extension::validate`, the path behind
+// `Chain::validate(false)`, `Chain::txhashset_write`, the desegmenter's `validate_complete_state`
+// and the periodic validation — must REFUSE a state that contains one bad item, for every size.
+// States are assembled directly inside a read-only txhashset extension (the way a state archive
+// or PIBD delivers them: no block validation on the way): honest blocks of several shapes, and a
+// twin of one of them that carries ANOTHER kernel's signature / another output's range proof / a
+// foreign (well-signed) kernel / a foreign (well-proved) output of another amount, or a header whose
+// total kernel offset is off by one. The header against which the state is validated gets the
+// roots and sizes of the very state under test, so MMR hashes, roots and sizes are consistent and
+// only the signature / range-proof / sum checks can refuse it.
+
+#[derive(Clone, Copy, PartialEq, Eq, Debug, PartialOrd, Ord)]
+enum FvKind {
+	Honest,
+	Sig,
+	Proof,
+	SumsKernel,
+	SumsOutput,
+	SumsOffset,
+}
+
+impl FvKind {
+	fn name(&self) -> &'static str {
+		match self {
+			FvKind::Honest => "honest",
+			FvKind::Sig => "sig",
+			FvKind::Proof => "proof",
+			FvKind::SumsKernel => "sums-kernel",
+			FvKind::SumsOutput => "sums-output",
+			FvKind::SumsOffset => "sums-offset",
+		}
+	}
+}
+
+struct FvRes {
+	full: String,
+	fast: String,
+	/// kernels in the state (leaves of the kernel MMR)
+	k: u64,
+	/// MMR sizes (output, kernel)
+	sizes: (u64, u64),
+}
+
+fn fv_class(e: &grin_chain::Error) -> String {
+	// the Debug form without addresses / payloads: variant names only
+	let s = format!("{:?}", e);
+	let mut words: Vec<String> = vec![];
+	let mut cur = String::new();
+	for c in s.chars() {
+		if c.is_alphanumeric() {
+			cur.push(c);
+		} else {
+			if !cur.is_empty() {
+				words.push(cur.clone());
+				cur.clear();
+			}
+			if c == '"' {
+				break;
+			}
+		}
+	}
+	if !cur.is_empty() {
+		words.push(cur);
+	}
+	let keep: Vec<String> = words.into_iter().filter(|w| w != "source" && w.chars().next().map(|c| c.is_uppercase()).unwrap_or(false)).take(3).collect();
+	keep.join(":")
+}
+
+/// apply `blocks` on top of the chain's state inside a read-only extension, give the last header
+/// the roots and sizes of the resulting state (and `offset`, when given, as total kernel offset),
+/// run the full and the fast validation on it. Everything is rolled back afterwards.
+fn fv_eval(chain: &grin_chain::Chain, blocks: &[Block], offset: Option<grin_keychain::BlindingFactor>) -> Result<FvRes, String> {
+	use grin_chain::txhashset;
+	use grin_chain::types::NoStatus;
+	let genesis_hdr = chain.genesis();
+	let hp = chain.header_pmmr();
+	let ts = chain.txhashset();
+	let mut header_pmmr = hp.write();
+	let mut txhashset = ts.write();
+	let r = txhashset::extending_readonly(&mut header_pmmr, &mut txhashset, |ext, batch| {
+		let extension = &mut ext.extension;
+		let header_extension = &mut ext.header_extension;
+		for b in blocks {
+			extension.apply_block(b, header_extension, batch)?;
+		}
+		let mut header = blocks.last().unwrap().header.clone();
+		let sizes = extension.sizes();
+		header.output_mmr_size = sizes.0;
+		header.kernel_mmr_size = sizes.2;
+		let roots = extension.roots()?;
+		header.output_root = roots.output_root(&header);
+		header.range_proof_root = roots.rproof_root;
+		header.kernel_root = roots.kernel_root;
+		if let Some(o) = &offset {
+			header.total_kernel_offset = o.clone();
+		}
+		let show = |r: Result<(grin_util::secp::pedersen::Commitment, grin_util::secp::pedersen::Commitment), grin_chain::Error>| match r {
+			Ok(_) => "ok".to_string(),
+			Err(e) => format!("err:{}", fv_class(&e)),
+		};
+		let full = show(extension.validate(&genesis_hdr, false, &NoStatus, None, None, &header, None));
+		let fast = show(extension.validate(&genesis_hdr, true, &NoStatus, None, None, &header, None));
+		Ok(FvRes { full, fast, k: grin_core::core::pmmr::n_leaves(sizes.2), sizes: (sizes.0, sizes.2) })
+	});
+	r.map_err(|e| format!("{:?}", e))
+}
+
+/// the unspent outputs after `blocks` on top of `genesis`, in MMR order
+fn fv_utxo(genesis: &Block, blocks: &[Block]) -> Vec<grin_util::secp::pedersen::Commitment> {
+	let mut v: Vec<grin_util::secp::pedersen::Commitment> = genesis.outputs().iter().map(|o| o.commitment()).collect();
+	for b in blocks {
+		for o in b.outputs() {
+			v.push(o.commitment());
+		}
+		let ins: Vec<grin_core::core::CommitWrapper> = b.inputs().into();
+		for i in ins {
+			if let Some(p) = v.iter().position(|c| *c == i.commitment()) {
+				v.remove(p);
+			}
+		}
+	}
+	v
+}
+
+fn fv_pos(idx: usize, count: usize) -> &'static str {
+	if count == 1 {
+		"only"
+	} else if idx == 0 {
+		"first"
+	} else if idx + 1 == count {
+		"last"
+	} else if idx == 1 {
+		"second"
+	} else {
+		"middle"
+	}
+}
+
+struct FvCtx {
+	stats: BTreeMap<String, u64>,
+	ks: BTreeSet<u64>,
+	us: BTreeSet<u64>,
+	cases: u64,
+}
+
+/// one state: evaluate, print the two lines for the model, apply the oracle of the property
+#[allow(clippy::too_many_arguments)]
+fn fv_case(
+	out: &mut Out,
+	cx: &mut FvCtx,
+	kit: &Kit,
+	chain: &grin_chain::Chain,
+	genesis: &Block,
+	fam: &str,
+	kind: FvKind,
+	blocks: &[Block],
+	offset: Option<grin_keychain::BlindingFactor>,
+	sig_bad: Option<usize>,
+	proof_bad: Option<grin_util::secp::pedersen::Commitment>,
+	blind_fault: bool,
+) {
+	let res = fv_eval(chain, blocks, offset);
+	fv_report(out, cx, kit, genesis, fam, kind, blocks, res, sig_bad, proof_bad, blind_fault);
+}
+
+/// print the two lines of one evaluated state for the model, apply the oracle of the property
+#[allow(clippy::too_many_arguments)]
+fn fv_report(
+	out: &mut Out,
+	cx: &mut FvCtx,
+	kit: &Kit,
+	genesis: &Block,
+	fam: &str,
+	kind: FvKind,
+	blocks: &[Block],
+	res: Result<FvRes, String>,
+	sig_bad: Option<usize>,
+	proof_bad: Option<grin_util::secp::pedersen::Commitment>,
+	blind_fault: bool,
+) {
+	let n = blocks.len();
+	let gr = if genesis.kernels().is_empty() { 0u64 } else { 1 };
+	let utxo = fv_utxo(genesis, blocks);
+	let u = utxo.len();
+	let total: i128 = utxo.iter().map(|c| kit.by_commit.get(c).map(|i| kit.outs[*i].value as i128).unwrap_or(0)).sum();
+	let supply: i128 = (n as i128 + gr as i128) * grin_core::consensus::REWARD as i128;
+	let voff = total - supply;
+	let res = match res {
+		Ok(r) => r,
+		Err(e) => {
+			out.raw(&format!("#ORACLE-FAIL C01 harness: the state fam={} n={} kind={} could not be assembled in an extension: {}", fam, n, kind.name(), e));
+			return;
+		}
+	};
+	let k = res.k as usize;
+	let proof_rank = proof_bad.and_then(|c| utxo.iter().position(|x| *x == c));
+	let (pos, par) = match kind {
+		FvKind::Sig | FvKind::SumsKernel => (fv_pos(sig_bad.unwrap_or(0), k), k % 2),
+		FvKind::Proof | FvKind::SumsOutput => (fv_pos(proof_rank.unwrap_or(0), u), u % 2),
+		_ => ("-", k % 2),
+	};
+	let last_is_leaf = res.sizes.1 > 0 && grin_core::core::pmmr::is_leaf(res.sizes.1 - 1);
+	let sigl = if kind == FvKind::Sig { sig_bad.map(|i| i.to_string()).unwrap_or_default() } else { String::new() };
+	let prl = if kind == FvKind::Proof { proof_rank.map(|i| i.to_string()).unwrap_or_default() } else { String::new() };
+	for (fast, r) in [(0, &res.full), (1, &res.fast)] {
+		out.line(
+			&format!(
+				"chain fullval fam={} n={} kind={} fast={} K={} U={} gr={} voff={} blind={} sigbad=[{}] proofbad=[{}] pos={} lastleaf={}",
+				fam,
+				n,
+				kind.name(),
+				fast,
+				k,
+				u,
+				gr,
+				voff,
+				if blind_fault { 1 } else { 0 },
+				sigl,
+				prl,
+				pos,
+				if last_is_leaf { 1 } else { 0 }
+			),
+			r,
+		);
+	}
+	// the oracle of the property: an honest state passes both; a state with a bad signature, a bad
+	// range proof or sums that do not balance is refused by the full validation whatever the
+	// counts; sums that do not balance are refused by the fast validation too
+	let what = format!(
+		"fam={} blocks={} kernels={} unspent-outputs={} bad-item={} position={} (kernel index {:?}, unspent-output rank {:?}) last-kernel-MMR-position-is-leaf={}",
+		fam, n, k, u, kind.name(), pos, sig_bad, proof_rank, last_is_leaf
+	);
+	match kind {
+		FvKind::Honest => {
+			if res.full != "ok" || res.fast != "ok" {
+				out.raw(&format!("#ORACLE-FAIL C01 an honest state is refused by full-state validation (full={} fast={}): {}", res.full, res.fast, what));
+			}
+		}
+		FvKind::Sig | FvKind::Proof => {
+			if res.full == "ok" {
+				out.raw(&format!("#ORACLE-FAIL C01 full-state validation (fast=false) ACCEPTS a state containing a bad {}: {}", if kind == FvKind::Sig { "kernel signature" } else { "range proof" }, what));
+			}
+		}
+		_ => {
+			if res.full == "ok" || res.fast == "ok" {
+				out.raw(&format!("#ORACLE-FAIL C01 state validation ACCEPTS a state whose sums do not balance (full={} fast={}): {}", res.full, res.fast, what));
+			}
+		}
+	}
+	cx.cases += 1;
+	cx.ks.insert(k as u64);
+	cx.us.insert(u as u64);
+	*cx.stats.entry(format!("fullval:{}:count-{}:{}:full={}:fast={}", kind.name(), if par == 0 { "even" } else { "odd" }, pos, res.full, res.fast)).or_insert(0) += 1;
+	*cx.stats.entry(format!("fullval:last-kernel-position-is-{}", if last_is_leaf { "leaf" } else { "parent" })).or_insert(0) += 1;
+}
+
+/// every corrupted twin of the state `honest[..n]` with the bad item in block `j` (1-based)
+#[allow(clippy::too_many_arguments)]
+fn fv_variants(
+	out: &mut Out,
+	cx: &mut FvCtx,
+	kit: &Kit,
+	chain: &grin_chain::Chain,
+	genesis: &Block,
+	fam: &str,
+	honest: &[Block],
+	j: usize,
+	last_item: bool,
+	foreign: &grin_core::core::Transaction,
+) {
+	let n = honest.len();
+	let kernels_before: usize = genesis.kernels().len() + honest[..j - 1].iter().map(|b| b.kernels().len()).sum::<usize>();
+	let bj = &honest[j - 1];
+	let ki = if last_item { bj.kernels().len() - 1 } else { 0 };
+	// a signature made for another kernel of the same state (another block's, or the genesis')
+	let donor_sig = if n > 1 { honest[j % n].kernels()[0].excess_sig.clone() } else if !genesis.kernels().is_empty() { genesis.kernels()[0].excess_sig.clone() } else { foreign.kernels()[0].excess_sig.clone() };
+	{
+		let mut blocks = honest.to_vec();
+		blocks[j - 1].body.kernels[ki].excess_sig = donor_sig;
+		fv_case(out, cx, kit, chain, genesis, fam, FvKind::Sig, &blocks, None, Some(kernels_before + ki), None, false);
+	}
+	{
+		// a foreign kernel (well signed under its own excess) in the place of a kernel of the state
+		let mut blocks = honest.to_vec();
+		blocks[j - 1].body.kernels[ki] = foreign.kernels()[0].clone();
+		fv_case(out, cx, kit, chain, genesis, fam, FvKind::SumsKernel, &blocks, None, Some(kernels_before + ki), None, true);
+	}
+	// an output of block j that is still unspent in the final state
+	let utxo = fv_utxo(genesis, honest);
+	let mine: Vec<usize> = bj.outputs().iter().enumerate().filter(|(_, o)| utxo.contains(&o.commitment())).map(|(i, _)| i).collect();
+	if let Some(oi) = if last_item { mine.last() } else { mine.first() } {
+		let donor_proof = if n > 1 { honest[j % n].outputs()[0].proof } else if !genesis.outputs().is_empty() { genesis.outputs()[0].proof } else { foreign.outputs()[0].proof };
+		{
+			let mut blocks = honest.to_vec();
+			blocks[j - 1].body.outputs[*oi].proof = donor_proof;
+			let c = blocks[j - 1].body.outputs[*oi].commitment();
+			fv_case(out, cx, kit, chain, genesis, fam, FvKind::Proof, &blocks, None, None, Some(c), false);
+		}
+		{
+			// a foreign output (its own valid range proof, another amount) in the place of an output
+			let mut blocks = honest.to_vec();
+			blocks[j - 1].body.outputs[*oi] = foreign.outputs()[0].clone();
+			let c = blocks[j - 1].body.outputs[*oi].commitment();
+			fv_case(out, cx, kit, chain, genesis, fam, FvKind::SumsOutput, &blocks, None, None, Some(c), false);
+		}
+	} else {
+		*cx.stats.entry("fullval:block-without-surviving-output(no proof variant)".into()).or_insert(0) += 1;
+	}
+}
+
+fn fv_offset_plus_one(kit: &Kit, h: &grin_core::core::BlockHeader) -> grin_keychain::BlindingFactor {
+	use grin_keychain::Keychain;
+	let secp = kit.kc.secp();
+	let mut one = [0u8; 32];
+	one[31] = 1;
+	let mut pos = vec![grin_util::secp::key::SecretKey::from_slice(secp, &one).unwrap()];
+	if let Ok(k) = h.total_kernel_offset.secret_key(secp) {
+		if h.total_kernel_offset != grin_keychain::BlindingFactor::zero() {
+			pos.push(k);
+		}
+	}
+	grin_keychain::BlindingFactor::from_secret_key(secp.blind_sum(pos, vec![]).unwrap())
+}
+
+fn run_fullval(out: &mut Out, rng: &mut Rng, work: &str, thorough: bool) -> BTreeMap<String, u64> {
+	use grin_core::core::{FeeFields, KernelFeatures, TxKernel};
+	use grin_core::libtx::aggsig;
+	use grin_keychain::Keychain;
+	out.raw("chain reset");
+	let mut cx = FvCtx { stats: BTreeMap::new(), ks: BTreeSet::new(), us: BTreeSet::new(), cases: 0 };
+	let mut kit = Kit::new(&format!("{}/builder_fullval", work));
+	let genesis = kit.genesis.clone();
+	let reward = grin_core::consensus::REWARD;
+	// a transaction that is never part of any state: donor of a well-signed kernel and a well-proved output
+	let fkey = kit.fresh_key();
+	let fcommit_in = (777_000u64, fkey, false);
+	let fk2 = kit.fresh_key();
+	let foreign = make_tx(&kit.kc, &[fcommit_in], &[(776_000u64, fk2.clone())], KernelFeatures::Plain { fee: 1000u32.into() }).unwrap();
+	{
+		let c = foreign.outputs()[0].commitment();
+		kit.register_out(c, 776_000, fk2, false);
+	}
+	let cb_of = |kit: &Kit, b: &Block| -> usize { *kit.by_commit.get(&b.outputs().iter().find(|o| o.is_coinbase()).unwrap().commitment()).unwrap() };
+	let plain_of = |kit: &Kit, b: &Block, k: usize| -> usize { *kit.by_commit.get(&b.outputs().iter().filter(|o| !o.is_coinbase()).nth(k).unwrap().commitment()).unwrap() };
+	let n_a = if thorough { 17 } else { 13 };
+	// ---- family A: blocks of several shapes (1-in-2-out, 1-in-1-out, 2-in-1-out, 1-in-3-out, two
+	// transactions, 3-in-1-out), so that kernel and output counts take both parities independently
+	let mut fam_a: Vec<Block> = vec![];
+	{
+		let mut prev = genesis.header.clone();
+		for h in 1..=n_a {
+			let cb = |kit: &Kit, fam: &Vec<Block>, hh: usize| -> usize { if hh == 0 { 0 } else { cb_of(kit, &fam[hh - 1]) } };
+			let v = |kit: &Kit, o: usize| kit.outs[o].value;
+			let mut specs: Vec<TxSpec> = vec![];
+			match h {
+				3 => {
+					let o = cb(&kit, &fam_a, 0);
+					specs.push(TxSpec { inputs: vec![o], outputs: vec![(v(&kit, o) / 3, None), (v(&kit, o) - v(&kit, o) / 3 - 2, None)], kernel: KSpec::Plain(2) });
+				}
+				4 => {
+					let o = cb(&kit, &fam_a, 1);
+					specs.push(TxSpec { inputs: vec![o], outputs: vec![(v(&kit, o) - 3, None)], kernel: KSpec::Plain(3) });
+				}
+				6 => {
+					let (a, b) = (cb(&kit, &fam_a, 2), cb(&kit, &fam_a, 3));
+					specs.push(TxSpec { inputs: vec![a, b], outputs: vec![(v(&kit, a) + v(&kit, b) - 1, None)], kernel: KSpec::Plain(1) });
+				}
+				7 => {
+					let o = cb(&kit, &fam_a, 4);
+					specs.push(TxSpec { inputs: vec![o], outputs: vec![(1000, None), (2000, None), (v(&kit, o) - 3004, None)], kernel: KSpec::Plain(4) });
+				}
+				9 => {
+					let o = plain_of(&kit, &fam_a[2], 0);
+					specs.push(TxSpec { inputs: vec![o], outputs: vec![(v(&kit, o) - 2, None)], kernel: KSpec::HeightLocked(2, 9) });
+				}
+				11 => {
+					let (a, b) = (cb(&kit, &fam_a, 5), cb(&kit, &fam_a, 6));
+					specs.push(TxSpec { inputs: vec![a], outputs: vec![(v(&kit, a) - 1, None)], kernel: KSpec::Plain(1) });
+					specs.push(TxSpec { inputs: vec![b], outputs: vec![(7, None), (v(&kit, b) - 9, None)], kernel: KSpec::Plain(2) });
+				}
+				13 => {
+					let (a, b, c) = (cb(&kit, &fam_a, 7), cb(&kit, &fam_a, 8), plain_of(&kit, &fam_a[6], 0));
+					specs.push(TxSpec { inputs: vec![a, b, c], outputs: vec![(v(&kit, a) + v(&kit, b) + v(&kit, c) - 5, None)], kernel: KSpec::Plain(5) });
+				}
+				15 => {
+					let o = cb(&kit, &fam_a, 10);
+					specs.push(TxSpec { inputs: vec![o], outputs: vec![(v(&kit, o) - 1, None)], kernel: KSpec::Plain(1) });
+				}
+				_ => {}
+			}
+			let mut txs = vec![];
+			for s in &specs {
+				txs.push(kit.build_tx(s).unwrap());
+			}
+			let b = kit.raw_block(&prev, &txs).unwrap();
+			prev = b.header.clone();
+			fam_a.push(b);
+		}
+	}
+	// ---- family B: block 1 gives the whole genesis reward up as fees (its coinbase claims them), then
+	// coinbase-only blocks: n unspent outputs and n + 2 kernels after n blocks (1 unspent output at n = 1)
+	let n_b = if thorough { 12 } else { 10 };
+	let mut fam_b: Vec<Block> = vec![];
+	{
+		let mut prev = genesis.header.clone();
+		for h in 1..=n_b {
+			let mut txs = vec![];
+			if h == 1 {
+				let g = &kit.outs[0];
+				txs.push(make_tx(&kit.kc, &[(g.value, g.key_id.clone(), true)], &[], KernelFeatures::Plain { fee: FeeFields::new(0, g.value).unwrap() }).unwrap());
+			}
+			let b = kit.raw_block(&prev, &txs).unwrap();
+			prev = b.header.clone();
+			fam_b.push(b);
+		}
+	}
+	let builder = kit.builder.take().unwrap();
+	for (fam, blocks, nmax) in [("A", &fam_a, n_a), ("B", &fam_b, n_b)] {
+		for n in 1..=nmax {
+			let honest = &blocks[..n];
+			fv_case(out, &mut cx, &kit, &builder, &genesis, fam, FvKind::Honest, honest, None, None, None, false);
+			let off = fv_offset_plus_one(&kit, &honest[n - 1].header);
+			fv_case(out, &mut cx, &kit, &builder, &genesis, fam, FvKind::SumsOffset, honest, Some(off), None, None, true);
+			let mut js = vec![1usize, (n + 1) / 2, n];
+			js.dedup();
+			if !thorough && n > 8 && js.len() == 3 && n % 2 == 0 {
+				js.remove(1);
+			}
+			for (t, j) in js.iter().enumerate() {
+				fv_variants(out, &mut cx, &kit, &builder, &genesis, fam, honest, *j, (t + n) % 2 == 1, &foreign);
+			}
+		}
+	}
+	// ---- family C: a genesis without reward (no kernel, no output): n kernels and n unspent
+	// outputs after n coinbase-only blocks, 1 of each at n = 1; the first kernel of the MMR can be the bad one
+	{
+		let bare = grin_core::genesis::genesis_dev();
+		let dir = format!("{}/fullval_bare", work);
+		let _ = std::fs::remove_dir_all(&dir);
+		match init_chain(&dir, bare.clone()) {
+			Ok(chain_c) => {
+				let mut fam_c: Vec<Block> = vec![];
+				let mut prev = bare.header.clone();
+				for _ in 1..=4 {
+					let b = kit.raw_block(&prev, &[]).unwrap();
+					prev = b.header.clone();
+					fam_c.push(b);
+				}
+				for n in 1..=4 {
+					let honest = &fam_c[..n];
+					fv_case(out, &mut cx, &kit, &chain_c, &bare, "C", FvKind::Honest, honest, None, None, None, false);
+					let off = fv_offset_plus_one(&kit, &honest[n - 1].header);
+					fv_case(out, &mut cx, &kit, &chain_c, &bare, "C", FvKind::SumsOffset, honest, Some(off), None, None, true);
+					let mut js = vec![1usize, n];
+					js.dedup();
+					for j in js {
+						fv_variants(out, &mut cx, &kit, &chain_c, &bare, "C", honest, j, false, &foreign);
+					}
+				}
+			}
+			Err(e) => {
+				*cx.stats.entry(format!("fullval:no-chain-on-a-genesis-without-reward:{}", error_class(&e))).or_insert(0) += 1;
+			}
+		}
+	}
+	// ---- family V: the same through the node's own entry point, `Chain::validate(fast)`: a node that
+	// processed the honest blocks 1..n-1 gets block n's bad twin the way a state archive would bring
+	// it: its header (committing to the roots of the bad state) through header processing, its
+	// body applied in a committed txhashset extension with no block validation, the head moved onto it
+	{
+		let mut kit_v = Kit::new(&format!("{}/builder_fullval_v", work));
+		let mut ids = vec![0usize];
+		for h in 1..=5usize {
+			let mut specs = vec![];
+			if h == 4 {
+				let v = kit_v.outs[0].value;
+				specs.push(TxSpec { inputs: vec![0], outputs: vec![(v / 2, None), (v - v / 2 - 2, None)], kernel: KSpec::Plain(2) });
+			}
+			match kit_v.new_block(*ids.last().unwrap(), 1, &specs) {
+				Ok(id) => ids.push(id),
+				Err(e) => {
+					complain(format!("fullval V chain: {}", e));
+					break;
+				}
+			}
+		}
+		let fk = kit_v.fresh_key();
+		let fk2 = kit_v.fresh_key();
+		let foreign_v = make_tx(&kit_v.kc, &[(555_000u64, fk, false)], &[(554_000u64, fk2.clone())], KernelFeatures::Plain { fee: 1000u32.into() }).unwrap();
+		kit_v.register_out(foreign_v.outputs()[0].commitment(), 554_000, fk2, false);
+		let honest_v: Vec<Block> = ids[1..].iter().map(|i| kit_v.blks[*i].block.clone()).collect();
+		let mut vcase = 0usize;
+		for n in [1usize, 2, 4, 5] {
+			if n > honest_v.len() {
+				continue;
+			}
+			for kind in [FvKind::Sig, FvKind::Proof, FvKind::SumsKernel, FvKind::SumsOutput] {
+				vcase += 1;
+				let mut blocks = honest_v[..n].to_vec();
+				let kernels_before: usize = 1 + blocks[..n - 1].iter().map(|b| b.kernels().len()).sum::<usize>();
+				let last = blocks[n - 1].clone();
+				let ki = if vcase % 2 == 0 { 0 } else { last.kernels().len() - 1 };
+				let oi = if vcase % 2 == 0 { 0 } else { last.outputs().len() - 1 };
+				let (mut sig_bad, mut proof_bad) = (None, None);
+				match kind {
+					FvKind::Sig => {
+						blocks[n - 1].body.kernels[ki].excess_sig = kit_v.genesis.kernels()[0].excess_sig.clone();
+						sig_bad = Some(kernels_before + ki);
+					}
+					FvKind::Proof => {
+						blocks[n - 1].body.outputs[oi].proof = kit_v.genesis.outputs()[0].proof;
+						proof_bad = Some(blocks[n - 1].body.outputs[oi].commitment());
+					}
+					FvKind::SumsKernel => {
+						blocks[n - 1].body.kernels[ki] = foreign_v.kernels()[0].clone();
+						sig_bad = Some(kernels_before + ki);
+					}
+					_ => {
+						blocks[n - 1].body.outputs[oi] = foreign_v.outputs()[0].clone();
+						proof_bad = Some(blocks[n - 1].body.outputs[oi].commitment());
+					}
+				}
+				let subj = Subject::new(&format!("{}/fullval_v{}", work, vcase), &kit_v.genesis);
+				let mut setup_ok = true;
+				for b in &honest_v[..n - 1] {
+					setup_ok &= subj.deliver_block(b).starts_with("ok");
+				}
+				let res: Result<FvRes, String> = (|| {
+					use grin_chain::txhashset;
+					if !setup_ok {
+						return Err("honest prefix refused".to_string());
+					}
+					let chain = subj.c();
+					// roots and sizes of the bad state
+					let (roots_hdr, k) = {
+						let hp = chain.header_pmmr();
+						let ts = chain.txhashset();
+						let mut header_pmmr = hp.write();
+						let mut txhashset = ts.write();
+						let bad = blocks[n - 1].clone();
+						txhashset::extending_readonly(&mut header_pmmr, &mut txhashset, |ext, batch| {
+							let extension = &mut ext.extension;
+							let header_extension = &mut ext.header_extension;
+							extension.apply_block(&bad, header_extension, batch)?;
+							let mut header = bad.header.clone();
+							let sizes = extension.sizes();
+							header.output_mmr_size = sizes.0;
+							header.kernel_mmr_size = sizes.2;
+							let roots = extension.roots()?;
+							header.output_root = roots.output_root(&header);
+							header.range_proof_root = roots.rproof_root;
+							header.kernel_root = roots.kernel_root;
+							Ok((header, grin_core::core::pmmr::n_leaves(sizes.2)))
+						})
+						.map_err(|e| format!("roots: {:?}", e))?
+					};
+					let mut bad = blocks[n - 1].clone();
+					bad.header = roots_hdr;
+					let hr = subj.deliver_header(&bad.header);
+					if hr != "ok" {
+						return Err(format!("header of the bad state refused: {}", hr));
+					}
+					{
+						let hp = chain.header_pmmr();
+						let ts = chain.txhashset();
+						let store = chain.store();
+						let mut header_pmmr = hp.write();
+						let mut txhashset = ts.write();
+						let mut batch = store.batch().map_err(|e| format!("{:?}", e))?;
+						txhashset::extending(&mut header_pmmr, &mut txhashset, &mut batch, |ext, batch| {
+							let extension = &mut ext.extension;
+							let header_extension = &mut ext.header_extension;
+							extension.apply_block(&bad, header_extension, batch)?;
+							Ok(())
+						})
+						.map_err(|e| format!("apply: {:?}", e))?;
+						batch.save_block(&bad).map_err(|e| format!("{:?}", e))?;
+						batch.save_body_head(&grin_chain::Tip::from_header(&bad.header)).map_err(|e| format!("{:?}", e))?;
+						batch.commit().map_err(|e| format!("{:?}", e))?;
+					}
+					if chain.head().map(|t| t.last_block_h).ok() != Some(bad.hash()) {
+						return Err("head did not move onto the bad state".to_string());
+					}
+					let show = |r: Result<(), grin_chain::Error>| match r {
+						Ok(_) => "ok".to_string(),
+						Err(e) => format!("err:{}", fv_class(&e)),
+					};
+					let full = show(chain.validate(false));
+					let fast = show(chain.validate(true));
+					Ok(FvRes { full, fast, k, sizes: (bad.header.output_mmr_size, bad.header.kernel_mmr_size) })
+				})();
+				fv_report(out, &mut cx, &kit_v, &kit_v.genesis, "V", kind, &blocks, res, sig_bad, proof_bad, kind == FvKind::SumsKernel);
+			}
+		}
+		*cx.stats.entry("fullval:states-through-Chain::validate".into()).or_insert(0) += vcase as u64;
+	}
+	// ---- family K: one block with thousands of extra kernels (each well signed under its own
+	// excess, the header's total offset compensating their sum), so that the signature batches of
+	// `verify_kernel_signatures` (5000 kernels each) are a full one + a remainder, exactly one full
+	// one, or two full ones + a remainder; the bad signature first / at the end of a batch / at the
+	// start of the next / last
+	{
+		let base = kit.raw_block(&genesis.header, &[]).unwrap();
+		let secp = kit.kc.secp();
+		let kbatch = 5000usize;
+		let totals: Vec<usize> = if thorough { vec![kbatch, kbatch + 3, 2 * kbatch, 2 * kbatch + 3] } else { vec![kbatch, kbatch + 3] };
+		let maxm = totals.iter().max().unwrap() - 2;
+		let mut keys = vec![];
+		let mut arts: Vec<TxKernel> = vec![];
+		for _ in 0..maxm {
+			let mut bytes = rng.bytes(32);
+			bytes[0] &= 0x7f;
+			bytes[31] |= 1;
+			let bf = grin_keychain::BlindingFactor::from_slice(&bytes);
+			let skey = bf.secret_key(secp).unwrap();
+			let mut kernel = TxKernel::with_features(KernelFeatures::Plain { fee: FeeFields::zero() });
+			let msg = kernel.msg_to_sign().unwrap();
+			kernel.excess = secp.commit(0, skey.clone()).unwrap();
+			let pubkey = kernel.excess.to_pubkey(secp).unwrap();
+			kernel.excess_sig = aggsig::sign_with_blinding(secp, &msg, &bf, Some(&pubkey)).unwrap();
+			keys.push(skey);
+			arts.push(kernel);
+		}
+		for total in totals {
+			let m = total - 2; // genesis kernel + the block's coinbase kernel
+			let mut b = base.clone();
+			b.body.kernels.extend_from_slice(&arts[..m]);
+			// total offset = 0 - sum of the extra excess keys
+			let off = grin_keychain::BlindingFactor::from_secret_key(secp.blind_sum(vec![], keys[..m].to_vec()).unwrap());
+			fv_case(out, &mut cx, &kit, &builder, &genesis, "K", FvKind::Honest, &[b.clone()], Some(off.clone()), None, None, false);
+			let mut idxs: Vec<usize> = vec![1, 2, kbatch - 1, kbatch, total - 1];
+			if total > 2 * kbatch {
+				idxs.extend_from_slice(&[2 * kbatch - 1, 2 * kbatch]);
+			}
+			idxs.retain(|i| *i < total);
+			idxs.sort_unstable();
+			idxs.dedup();
+			for gi in idxs {
+				// global kernel index gi = 1 is the coinbase kernel, 2.. the extra kernels
+				let mut bad = b.clone();
+				let bi = gi - 1;
+				let donor = if bi + 1 < bad.body.kernels.len() { bi + 1 } else { bi - 1 };
+				bad.body.kernels[bi].excess_sig = b.body.kernels[donor].excess_sig.clone();
+				fv_case(out, &mut cx, &kit, &builder, &genesis, "K", FvKind::Sig, &[bad], Some(off.clone()), Some(gi), None, false);
+			}
+			// sums: the compensation is off by one
+			let off1 = {
+				let mut h = b.header.clone();
+				h.total_kernel_offset = off.clone();
+				fv_offset_plus_one(&kit, &h)
+			};
+			fv_case(out, &mut cx, &kit, &builder, &genesis, "K", FvKind::SumsOffset, &[b.clone()], Some(off1), None, None, true);
+		}
+	}
+	// ---- family U (thorough): more unspent outputs than one range-proof batch (1000): the bad
+	// proof first / at the end of the first batch / at the start of the remainder / last
+	if thorough {
+		let pbatch = 1000usize;
+		let g = kit.outs[0].clone();
+		for total in [pbatch, pbatch + 2] {
+			// the genesis reward split into total - 1 outputs; with the coinbase: `total` unspent outputs
+			let n_out = total - 1;
+			let each = (g.value - 10) / n_out as u64;
+			let mut outs: Vec<(u64, Option<usize>)> = (0..n_out).map(|_| (each, None)).collect();
+			outs[0].0 = g.value - 10 - each * (n_out as u64 - 1);
+			let tx = kit.build_tx(&TxSpec { inputs: vec![0], outputs: outs, kernel: KSpec::Plain(10) }).unwrap();
+			let b = kit.raw_block(&genesis.header, &[tx]).unwrap();
+			fv_case(out, &mut cx, &kit, &builder, &genesis, "U", FvKind::Honest, &[b.clone()], None, None, None, false);
+			for oi in [0usize, 1, pbatch - 2, pbatch - 1, total - 1] {
+				if oi >= b.body.outputs.len() {
+					continue;
+				}
+				let mut bad = b.clone();
+				let donor = (oi + 1) % bad.body.outputs.len();
+				bad.body.outputs[oi].proof = b.body.outputs[donor].proof;
+				let c = bad.body.outputs[oi].commitment();
+				fv_case(out, &mut cx, &kit, &builder, &genesis, "U", FvKind::Proof, &[bad], None, None, Some(c), false);
+			}
+		}
+	}
+	let _ = reward;
+	let ks: Vec<String> = cx.ks.iter().map(|k| k.to_string()).collect();
+	let us: Vec<String> = cx.us.iter().map(|k| k.to_string()).collect();
+	out.raw(&format!("#STAT fullval: kernel counts of the states validated = [{}]", ks.join(",")));
+	out.raw(&format!("#STAT fullval: unspent-output counts of the states validated = [{}]", us.join(",")));
+	// the matrix the run is for: every (bad-item kind x parity of the count x position) cell
+	for kind in ["sig", "proof", "sums-kernel", "sums-output"] {
+		for par in ["even", "odd"] {
+			for pos in ["first", "middle", "last"] {
+				let pre = format!("fullval:{}:count-{}:{}:", kind, par, pos);
+				let hit: u64 = cx.stats.iter().filter(|(k, _)| k.starts_with(&pre)).map(|(_, v)| *v).sum();
+				if hit == 0 && !(pos == "first" && (kind == "sig" || kind == "sums-kernel") && par == "even") {
+					out.raw(&format!("#ORACLE-FAIL C01 harness: no state with a bad item of kind {} at position {} among an {} number of items was generated", kind, pos, par));
+				}
+			}
+		}
+	}
+	*cx.stats.entry("fullval:states".into()).or_insert(0) += cx.cases;
+	cx.stats
+}
+
 fn main() {
 	quiet_panics();
 	setup_globals();
@@ -2222,6 +3494,24 @@ fn main() {
 	let mut total: BTreeMap<String, u64> = BTreeMap::new();
 	if args.get(1).map(|s| s == "c13").unwrap_or(false) {
 		let st = run_c13(&mut out, &mut rng, &work);
+		for (k, v) in st {
+			out.raw(&format!("#STAT {}={}", k, v));
+		}
+		flush_complaints(&mut out);
+		out.flush();
+		return;
+	}
+	if args.get(1).map(|s| s == "fat").unwrap_or(false) {
+		let st = run_fat(&mut out, &mut rng, &work, thorough);
+		for (k, v) in st {
+			out.raw(&format!("#STAT {}={}", k, v));
+		}
+		flush_complaints(&mut out);
+		out.flush();
+		return;
+	}
+	if args.get(1).map(|s| s == "fullval").unwrap_or(false) {
+		let st = run_fullval(&mut out, &mut rng, &work, thorough);
 		for (k, v) in st {
 			out.raw(&format!("#STAT {}={}", k, v));
 		}
